@@ -25,7 +25,11 @@ TRUSTED = ["Python comparison of aware datetimes by instant, TypeError for naive
 LOCAL = "Europe/Berlin"
 TRIGGERS = [("z", "Europe/Berlin", 2020, 6, 10, 12, 0, 0), ("z", "America/New_York", 2020, 6, 10, 6, 0, 0),
             ("u", 2020, 6, 10, 10, 0, 0), ("n", 2020, 6, 10, 12, 0, 0), ("d", 2020, 6, 10),
-            ("z", "Europe/Berlin", 2020, 10, 25, 2, 30, 0)]
+            ("z", "Europe/Berlin", 2020, 10, 25, 2, 30, 0),
+            # inside the repeated hour at the end of daylight saving time, with the other instants 20 minutes apart:
+            # a later instant then has an EARLIER wall clock reading in the same zone
+            ("z", "Europe/Berlin", 2020, 10, 25, 2, 40, 0), ("z", "America/New_York", 2020, 11, 1, 1, 30, 0)]
+UNIT_MINUTES = {("z", "Europe/Berlin", 2020, 10, 25, 2, 40, 0): 20, ("z", "America/New_York", 2020, 11, 1, 1, 30, 0): 20}
 DOC = ("LocalTimezoneMissing",)
 
 
@@ -67,7 +71,7 @@ def instants_for(tdesc, ranks, provider="zoneinfo"):
     out = {}
     for k in "ACS":
         if k in ranks:
-            out[k] = t + timedelta(hours=ranks[k] - ranks["T"])
+            out[k] = t + timedelta(minutes=UNIT_MINUTES.get(tuple(tdesc), 60) * (ranks[k] - ranks["T"]))
         else:
             out[k] = None
     return t, out
@@ -490,8 +494,9 @@ def run(ctx, res):
 def _run_main(ctx, res):
     n = len(table_cases())
     res.rule = (f"decision table: all {n} weak orderings (ties included) of trigger / alarm ACKNOWLEDGED / component "
-                "acknowledgement / snooze with each of the last three optionally absent x 6 triggers (zoned Berlin, New "
-                "York, Berlin in the DST overlap, UTC, floating, date) x local zone set/unset, each through Alarms by hand, "
+                "acknowledgement / snooze with each of the last three optionally absent x 8 triggers (zoned Berlin, New "
+                "York, Berlin in the DST overlap, UTC, floating, date; Berlin and New York in the repeated hour with the other "
+                "instants 20 minutes apart, so that later instants read earlier on the wall clock) x local zone set/unset, each through Alarms by hand, "
                 "a component with DTSTAMP and a parsed Thunderbird component, with two later-acknowledgement probes per "
                 "case, under zoneinfo and pytz; random parsed components with 1-3 alarms; non-trivial = at least one of "
                 "the three optional instants present (components: at least two alarms); distinct by content")
